@@ -30,13 +30,13 @@ func (x *Exec) value(st *State, fr *Frame, in ssa.Value, k func(*State)) bool {
 		x.unop(st, fr, v)
 	case *ssa.BinOp:
 		a, b := x.reg(st, fr, v.X), x.reg(st, fr, v.Y)
-		st.regs[v] = x.binop(st, v.Op, a, b, v.Type(), x.pos(v.Pos()))
+		st.regs[v] = x.named(st, x.binop(st, v.Op, a, b, v.Type(), x.pos(v.Pos())), v.Name())
 	case *ssa.Phi:
 		// path-sensitive: the predecessor is known from the trace of the run;
 		// we find it through the ghost marker set by run()
 		panic("phi handled in run")
 	case *ssa.Convert:
-		st.regs[v] = x.convert(st, x.reg(st, fr, v.X), v.Type(), x.pos(v.Pos()))
+		st.regs[v] = x.named(st, x.convert(st, x.reg(st, fr, v.X), v.Type(), x.pos(v.Pos())), v.Name())
 	case *ssa.ChangeType:
 		st.regs[v] = x.coerce(x.reg(st, fr, v.X), v.Type())
 	case *ssa.MakeInterface:
@@ -125,6 +125,23 @@ func (x *Exec) value(st *State, fr *Frame, in ssa.Value, k func(*State)) bool {
 		x.abort(st, fmt.Sprintf("value instruction %T", in))
 	}
 	return false
+}
+
+// named gives a large scalar result a name (fresh variable constrained to equal
+// the term), so that later terms mentioning it stay small.
+func (x *Exec) named(st *State, v Val, hint string) Val {
+	if v.A != nil || len(v.L) != 1 || x.dry {
+		return v
+	}
+	t := v.L[0]
+	if t.S.K == SArr || termSize(t) <= 10 {
+		return v
+	}
+	n := x.E.fresh("v."+hint, t.S)
+	st.assume(Eq(n, t))
+	nv := v
+	nv.L = []*Term{n}
+	return nv
 }
 
 func (x *Exec) and(ts ...*Term) *Term { return And(ts...) }
@@ -802,9 +819,12 @@ func (x *Exec) strMem(st *State) *Term {
 }
 
 func (x *Exec) bytesToString(st *State, v Val, to types.Type) Val {
-	ref := x.allocRef(st)
-	r := Val{T: to, L: []*Term{ref, x.idxConst(0), v.L[2]}}
 	_, m := x.byteMem(st)
+	// the string is identified by the content it was made from: the same
+	// backing array, offset and length give the same string (so abstract
+	// predicates over strings are functions of the content)
+	ref := App("str.of", IntS, Select(m, v.L[0]), v.L[1], v.L[2])
+	r := Val{T: to, L: []*Term{ref, x.idxConst(0), v.L[2]}}
 	if !x.tc.bv {
 		k := x.E.fresh("k", IntS)
 		st.assume(Forall([]*Term{k}, Implies(And(Le(IntC(0), k), Lt(k, v.L[2])),
